@@ -5,7 +5,7 @@ ID = "C07"
 RULE = ("hook ops rlp.len (every n in 0..70000 thorough / 0..3000 quick, plus neighbourhoods of 2^8,2^16,2^24,2^32,2^56,2^64-1, both offsets), "
         "rlp.bytes (all 256 single bytes, every length 0..1100 thorough / 0..300 quick, 64KiB+-1 and thorough 16MiB+-1 via rlp.bytes_rep), "
         "rlp.uint (every byte width 1..32 x {min, max, random}, zero), rlp.list (0..20 items, payload sizes crossing 55/56 and 255/256); "
-        "the same encoder is also exercised without the hook through transaction encoding in C06. "
+        "transaction level (ops tx.sign / tx.encode, no hook): every access-list shape and repeat case and a sample of the other C06 cases, each payload strictly decoded and compared field by field; "
         "non-trivial = distinct input; judge = strict Yellow-Paper decoder (Spec.Rlp.decodeAll) must accept the output, consume it completely and return the input")
 EXHAUSTIVE_SWEEPS = {"quick": ["rlp.len 0..3000 x {0x80,0xc0}", "all 256 single bytes", "string lengths 0..300", "uint byte widths 1..32"],
                      "thorough": ["rlp.len 0..70000 x {0x80,0xc0}", "all 256 single bytes", "string lengths 0..1100", "uint byte widths 1..32"]}
@@ -63,4 +63,13 @@ def gen(rng, tier):
     for total in (54, 55, 56, 57, 254, 255, 256, 257, 65535, 65536):
         items = [bytes([0x01])] * total
         cases.append(Case("rlp.list " + ",".join(hx(i) for i in items), tags=("list", "boundary")))
+    # transaction level: "decodes to exactly the original values" and "distinct transactions never share an encoding" are
+    # statements about whole payloads too — every access-list shape / repeat case and a sample of the other C06 cases
+    from vlib.props import c06
+    import random as _r
+    sub = c06.gen(_r.Random(rng.getrandbits(64)), "quick")
+    for c in sub:
+        t = c.tags[0]
+        if t in ("accesslist-shape", "accesslist-repeats") or (t in ("random", "chosen-signature", "calldata-sweep", "chain-ids") and rng.random() < (0.6 if tier == "thorough" else 0.25)):
+            cases.append(Case(c.line, tags=("tx-level", t), meta=dict(c.meta), nontrivial=c.nontrivial))
     return cases
